@@ -191,4 +191,23 @@ PROPS = {
                         "bad.destruct-stack-tuple", "bad.pop_at-stack-tuple", "bad.resize-stack-string"],
         "assumptions": ["default (checked) build only"],
     },
+    "C07": {
+        "level": "exploration",
+        "rule": "one evaluation = one seeded try/catch/throw program tree (<= 40 statements per thread, nesting <= 6: up to three try constructs "
+                "written lexically inside one C function plus dynamic nesting through calls; catch filters of arity 0-3 over 6 built-in error "
+                "objects; throws from bodies, called functions, genuine library calls and handlers; sequences of constructs) executed through "
+                "the real try/catch/throw macros in the main thread and, in a quarter of the runs, one tree per Cello worker thread under the "
+                "seeded baton scheduler; each throw is the injected fault. A reference interpreter of the same tree predicts every event "
+                "(statement, throw, handler entered with which object, statement after each construct, end / uncaught); the real run is "
+                "compared event by event, nesting depth is compared around every construct, and programs predicted to end uncaught run in a "
+                "child process that must exit with failure and name the exception on stderr. Non-trivial = the tree contains an inner handled "
+                "exception followed by normal completion of an enclosing body, or a throw from a handler; distinct = distinct trace hashes.",
+        "stages": lambda tier: [
+            {"scen": "exc", "env": {}, "runs": 12000 if tier == "quick" else 2_000_000, "configs": ["plain"], "timeout": 6},
+            {"scen": "exc", "env": {}, "runs": 2000 if tier == "quick" else 200_000, "configs": ["asan"], "first": 10_000_000, "timeout": 6},
+        ],
+        "rare_probes": ["exc.outer_completes_after_inner_handled", "exc.throw_in_handler", "exc.lexical_nesting", "exc.lexical_nesting3",
+                        "exc.throw_from_library", "exc.uncaught_programs", "exc.thread_programs"],
+        "assumptions": ["return/goto out of a try block and signals are outside the workload", "the model does not look at messages"],
+    },
 }
